@@ -309,6 +309,13 @@ impl NodeCtx {
                 self.index.send(RaftIndexRequest::SaveMember { member: vec![1, 2, 3], member_after_consensus: None, node_addr: Some(addrs) }).await??;
                 json!({})
             }
+            "history_seq_probe" => {
+                // where would the config actor continue its history-id sequence? (consumes ids: call after the dumps only)
+                match app.config_addr.send(ConfigCmd::GetSequenceSection(1)).await?? {
+                    ConfigResult::SequenceSection { start, end } => json!({"start": start, "end": end}),
+                    _ => json!({"err": "unexpected result"}),
+                }
+            }
             "actor_barrier" => {
                 // one query per component actor: mailbox order guarantees earlier fire-and-forget sends were processed
                 let _ = app.config_addr.send(ConfigCmd::GET(ConfigKey::new("-", "-", "-"))).await;
